@@ -1,0 +1,38 @@
+// Copyright The Prometheus Authors
+// Licensed under the Apache License, Version 2.0 (the "License");
+// you may not use this file except in compliance with the License.
+// You may obtain a copy of the License at
+//
+// http://www.apache.org/licenses/LICENSE-2.0
+//
+// Unless required by applicable law or agreed to in writing, software
+// distributed under the License is distributed on an "AS IS" BASIS,
+// WITHOUT WARRANTIES OR CONDITIONS OF ANY KIND, either express or implied.
+// See the License for the specific language governing permissions and
+// limitations under the License.
+
+//go:build !verif
+
+package app
+
+import (
+	"time"
+
+	"github.com/prometheus/alertmanager/config"
+	"github.com/prometheus/alertmanager/nflog"
+	"github.com/prometheus/alertmanager/notify"
+	"github.com/prometheus/alertmanager/provider/mem"
+	"github.com/prometheus/alertmanager/silence"
+)
+
+// No-op stand-ins for the verification hooks (see verif_on.go).
+
+func verifRegister(*App, *silence.Silences, *silence.Silencer, *nflog.Log, *mem.Alerts, *reloader) {}
+
+func verifWaitFunc(_ Options, f func() time.Duration) func() time.Duration { return f }
+
+func verifPipelinePeer(_ *reloader, p notify.Peer) notify.Peer { return p }
+
+func verifWrapIntegrations(_ *reloader, _ config.Receiver, integrations []notify.Integration) []notify.Integration {
+	return integrations
+}
